@@ -352,7 +352,7 @@ def scrambled_user_specs(draw):
 
 
 def lib_cases(max_L, max_L_2d, max_color, max_n):
-    cases = domain.all_code_cases(max_L, max_L_2d, max_color, max_n=max_n)
+    cases = domain.all_code_cases(max_L, max_L_2d, max_color, max_n=max_n, thin=True)
     out = []
     for i, c in enumerate(cases):
         c = dict(c)
